@@ -84,6 +84,7 @@ type Plan struct {
 	Ops     []Op             `json:"ops"`
 	Conc    []Op             `json:"conc,omitempty"`    // C15: requests issued concurrently after Ops
 	Metrics bool             `json:"metrics,omitempty"` // C15: a metrics gatherer is installed (metrics.Block() takes its lock)
+	Debug   bool             `json:"debug,omitempty"`   // every configuration of the run enables debug logging for all sources
 }
 
 // ---------------------------------------------------------------------------
